@@ -8,8 +8,9 @@ EXTENDS Naturals, Sequences, TLC, Json
 CONSTANT MaxNames
 \* (names of the language's own vocabulary - built-in types List, Set, Dict, Tuple, Any, Callable, Int .. and the built-in functions print, input -
 \* are not "fresh legal names" and are not targets)
-LowerTargets == {"s", "se", "sel", "plain_rn", "size", "init", "super", "math", "typing", "abc", "str", "int", "range", "slice", "selfie", "len", "id", "list", "ann"}
-ClassTargets == {"Plain_Rn", "Optional", "Union", "ABC", "NewType", "Exception2", "Int2", "Generic", "Typing", "Math"}
+\* (character classes of names: every digit, both cases, leading / trailing / double underscores)
+LowerTargets == {"v9", "x0y", "n_29", "a1b2c3d4e5f6g7h8i9j0", "camelCase9", "_lead", "trail_", "a__b", "s", "se", "sel", "plain_rn", "size", "init", "super", "math", "typing", "abc", "str", "int", "range", "slice", "selfie", "len", "id", "list", "ann"}
+ClassTargets == {"Cls9", "C0x", "ALLCAPS", "Plain_Rn", "Optional", "Union", "ABC", "NewType", "Exception2", "Int2", "Generic", "Typing", "Math"}
 Targets(kind) == CASE kind = "class" -> ClassTargets
                    [] kind = "method" -> LowerTargets \ {"init"}          \* init is the documented constructor name
                    [] OTHER -> LowerTargets
